@@ -34,12 +34,16 @@ RULES = {
     "R9": "value-info category agreement: for graphs and functions, every category of value (inputs, initializers, "
     "node outputs) for which the writer emits value_info entries is a category to which the paired reader applies "
     "value_info entries - otherwise the type/shape of that category is written but never read back",
+    "R10": "per-iteration results are built from per-iteration collections (shared rule S5): in the (de)serializer, a local "
+    "collection that is grown inside a loop and stored into an IR/proto object once per iteration is created inside that "
+    "loop - a collection created before the loop carries the entries of earlier nodes into later ones (duplicated device "
+    "configurations, attributes, …)",
     "R7": "no early exit of a writer bypasses a field write: for every `return` inside a serialize function, each proto "
     "field write that would still be reached if the function went on is either data-dependent on what the return's "
     "guard tested (nothing to write), or the return follows a whole-message CopyFrom, or it follows a logged warning "
     "(declared unsupported case)",
 }
-FLOORS = {"R1": 100, "R2": 40, "R3": 30, "R4": 1, "R5": 40, "R6": 20, "R7": 6, "R8": 3, "R9": 3}
+FLOORS = {"R1": 100, "R2": 40, "R3": 30, "R4": 1, "R5": 40, "R6": 20, "R7": 6, "R8": 3, "R9": 3, "R10": 10}
 EXPLANATION = (
     "Types every proto expression of serde.py through parameter annotations and the parsed onnx-ml.proto schema, "
     "collects per message the fields the deserializer reads and the serializer writes (attribute access, HasField, "
@@ -460,7 +464,7 @@ def _closure_names(f, exprs, depth=4) -> set[str]:
     return out
 
 
-def rule_r7(ctx):
+def rule_r7(ctx, rule="R7"):
     n_ret = 0
     for f in writer_funcs(ctx):
         rets = [r for r in own_nodes(f.node) if isinstance(r, ast.Return) and r is not f.node.body[-1]]
@@ -509,7 +513,7 @@ def rule_r7(ctx):
                         bad = st
                         break
             why = "follows a whole-message CopyFrom" if copied else "follows a logged warning" if warned else "bypassed writes depend on the tested value"
-            ctx.check("R7", f"{f.local}: early return under `{short(norm(blk.test)) if isinstance(blk, ast.If) else ''}` bypasses no independent field write", bad is None, f, r,
+            ctx.check(rule, f"{f.local}: early return under `{short(norm(blk.test)) if isinstance(blk, ast.If) else ''}` bypasses no independent field write", bad is None, f, r,
                       (f"this return skips `{short(norm(bad))}`, whose value does not depend on what the guard tested "
                        f"(`{short(norm(blk.test)) if isinstance(blk, ast.If) else ''}`): that field is lost for the inputs taking this exit") if bad is not None else "",
                       how=f"continuation of the return ∩ proto writes; justification: {why}",
@@ -741,7 +745,25 @@ def rule_r9(ctx):
     ctx.require(n >= 3, f"only {n} value_info categories found in the writers")
 
 
+def rule_r10(ctx):
+    from ..shared import leaked_iteration_collections
+
+    n = 0
+    for f in ctx.repo.module(SERDE).all_funcs:
+        if isinstance(f.node, ast.Lambda) or not any(isinstance(x, (ast.For, ast.While)) for x in own_nodes(f.node)):
+            continue
+        n += 1
+        leaks = leaked_iteration_collections(f)
+        ctx.check("R10", f"{f.local}: collections stored per iteration are created per iteration", not leaks, f, leaks[0][2] if leaks else f.node,
+                  (f"`{norm(leaks[0][2])}` stores `{leaks[0][0]}` once per iteration, but `{leaks[0][0]}` is created before the loop and only grows: "
+                   "every iteration after the first also gets the entries collected for the earlier ones") if leaks else "",
+                  how="loops whose body grows a local collection and stores it into an object: the collection is bound inside the loop body",
+                  nontrivial=bool(leaks), construct=f"collection {leaks[0][0] if leaks else ''} outlives its iteration")
+    ctx.require(n >= 10, f"only {n} functions with loops found in serde")
+
+
 def run(ctx):
+    rule_r10(ctx)
     rule_r9(ctx)
     rule_r6(ctx)
     rule_r7(ctx)
